@@ -43,3 +43,83 @@ for key, directed, pat, by in step.patterns():
 for _n, _c in REG.conds.items():
     if _c.tier == "quick" and _n.endswith("_l2"):
         _c.tier = "thorough"
+
+
+# ---- Layer 2: stream_interactions() is chronological, repeat-free, and replays to the presence relation ------------------
+import dynetx as dn  # noqa: E402
+from . import build, inv, models, oracle  # noqa: E402
+from .h_c10 import SHAPES as L2_SHAPES, mk as l2_mk  # noqa: E402
+from .models import reach, sbool  # noqa: E402
+
+_w = dn.DynGraph()
+_w.add_interaction(1, 2, 0, 3)
+list(_w.stream_interactions()), list(dn.stream_interactions(_w))
+
+
+def T_l2(s0: int, s1: int, s2: int, q: int) -> bool:
+    pass
+
+
+def stream_body(cfg, s0, s1, s2, q):
+    directed = cfg["directed"]
+    g, pairs = l2_mk(cfg, [s0, s1, s2])
+    st = list(g.stream_interactions())
+    st2 = list(dn.stream_interactions(g))
+    if len(st) != len(st2):
+        return False
+    prev = None
+    for i, ev in enumerate(st):
+        if len(ev) != 4 or ev[2] not in ("+", "-"):
+            return False
+        e2 = st2[i]
+        if (ev[0], ev[1], ev[2]) != (e2[0], e2[1], e2[2]) or sbool(ev[3] != e2[3]):
+            return False
+        if prev is not None and sbool(prev > ev[3]):
+            return False                                   # chronological
+        prev = ev[3]
+        for ev0 in st[:i]:
+            samepair = (ev0[0], ev0[1]) == (ev[0], ev[1]) or (not directed and (ev0[1], ev0[0]) == (ev[0], ev[1]))
+            if samepair and ev0[2] == ev[2] and sbool(ev0[3] == ev[3]):
+                return False                               # never repeats a (pair, op, t)
+    if len(set((e[0], e[1]) for e in st)) > 1:
+        reach("two_pairs_in_stream")
+    # replaying the stream reconstructs presence ('+' appears, following '-' vanishes, unclosed '+' = that instant)
+    runs = {}
+    openat = {}
+    for (u, v, op, t) in st:
+        key = (u, v) if (directed or (u, v) in [(x, y) for (x, y, _) in pairs]) else (v, u)
+        if op == "+":
+            if key in openat:
+                runs.setdefault(key, []).append([openat[key], openat[key]])
+            openat[key] = t
+        else:
+            if key not in openat:
+                return False                               # a '-' without a preceding '+' of its pair
+            runs.setdefault(key, []).append([openat[key], t - 1])
+            del openat[key]
+    for key in openat:
+        runs.setdefault(key, []).append([openat[key], openat[key]])
+    for (u, v, tl) in pairs:
+        exp = sbool(inv.present_at(tl, q))
+        got = sbool(inv.present_at(runs.get((u, v), []), q))
+        if exp:
+            reach("present_at_q")
+        if got != exp:
+            return False
+    return True
+
+
+for _directed in (False, True):
+    for _shape in L2_SHAPES:
+        if _shape.startswith("recip") and not _directed:
+            continue
+        if _shape == "unclosed2":
+            continue
+        REG.add("stream_%s_%s" % ("d" if _directed else "u", _shape), T_l2, stream_body, cfg=dict(directed=_directed, shape=_shape),
+                tier="quick", timeout=900,
+                tags=["present_at_q"] + (["two_pairs_in_stream"] if len(L2_SHAPES[_shape]) > 1 else []), twins=1,
+                bounds="%s with interactions %s (u, v, run lengths-1, closing flags), unbounded symbolic run starts, explicit event "
+                       "index satisfying Inv3 (no unclosed 2-instant run: F-C05-unclosed-2run); unbounded q" %
+                       ("DynDiGraph" if _directed else "DynGraph", L2_SHAPES[_shape]),
+                what="stream_interactions() (and dn.stream_interactions) yields 4-tuples in non-decreasing t, never repeats a (pair, "
+                     "op, t), every '-' follows a '+' of its pair, and replaying it reconstructs the presence relation at q")
